@@ -28,6 +28,8 @@ THEOREMS = [
     "C07_foreign_connection_dropped",
     "C07_loaded_macro_not_resavable",
     "C07_cached_io_view_drops_link",
+    "C07_load_in_place",
+    "C07_load_in_place_orphans",
 ]
 RULE = (
     "seeded random graphs built from REAL objects (term function nodes, transformers, for-loops, nested macros "
@@ -81,7 +83,8 @@ def _exec_repr(ex):
 
 def _conn_list(ch, comp):
     # third entry: is the partner's owner really a child of this composite (or only a label)?
-    return [[c.owner.label, c.label, c.owner.parent is comp] for c in ch.connections]
+    return [[c.owner.label, c.label, c.owner.parent is comp or comp.children.get(c.owner.label) is c.owner]
+            for c in ch.connections]
 
 
 def snap(node):
@@ -133,6 +136,7 @@ def snap(node):
         d["prov"] = list(node.provenance_by_execution)
         for ch in node:
             d["children"].append(snap(ch))
+            d["children"][-1]["parent_ok"] = ch.parent is node
             for k, c in ch.inputs.items():
                 if c.connections:
                     d["di"].append([[ch.label, k], _conn_list(c, node)])
@@ -285,8 +289,8 @@ _VARIANT = None
 
 
 def variant():
-    """(revIter, firing, pushIn, pushOut, pushFor, keepCache, skipForeign, rebindOwners, noView) of the library under
-    test, probed on tiny real graphs"""
+    """(revIter, firing, pushIn, pushOut, pushFor, keepCache, skipForeign, rebindOwners, noView, keepPlace) of the
+    library under test, probed on tiny real graphs"""
     global _VARIANT
     if _VARIANT is not None:
         return _VARIANT
@@ -356,8 +360,12 @@ def variant():
     wv.pl = nodes.F2()
     wv.replace_child(wv.pl, nodes.F3(label="repl"))
     noview = pickle.loads(pickle.dumps(wv)).mm.inputs.x.value_receiver is not None
+    fn2 = os.path.join(os.getcwd(), "pv_probe_dir", "pv_inplace")
+    wv.pl.save(backend="pickle", filename=fn2)
+    wv.pl.load(backend="pickle", filename=fn2)
+    keepplace = wv.pl.parent is wv
     _VARIANT = (int(rev), int(fir), int(push), int(push_out), int(push_for), int(keep), int(skip), int(rebind),
-                int(noview))
+                int(noview), int(keepplace))
     return _VARIANT
 
 
@@ -565,6 +573,8 @@ def run_impl(case):
     stats[f"backend:{backend}"] = 1
     stats[f"target:{'root' if not path else 'child'}"] = 1
 
+    if case.get("inplace") and path:
+        return _run_inplace(case, root, path, res, stats)
     target = _descend(root, path)
     mid = N.SNAPS[0] if (state == "midrun" and N.SNAPS) else None
     if state == "midrun" and mid is None:
@@ -618,7 +628,7 @@ def run_impl(case):
     rows.append(f"build {rid}")
     if view_row(I, before):
         rows.append(view_row(I, before))
-    v = "%d%d%d%d%d%d %d %d %d" % res["variant"]
+    v = "%d%d%d%d%d%d %d %d %d" % res["variant"][:9]
     obs = ["built"]
     if before["has_parent"]:
         # the driver starts from the parent's path: describe the child as a root whose detached path is the parent's
@@ -647,6 +657,44 @@ def run_impl(case):
             n.executor_shutdown(wait=False)
         except Exception:  # noqa: BLE001
             pass
+    return res
+
+
+def _run_inplace(case, root, path, res, stats):
+    """a child saves its state and loads it again IN PLACE; the composite around it is observed before and after"""
+    parent = _descend(root, path[:-1])
+    child = parent.children[path[-1]]
+    root_before = snap(root)
+    before = snap(parent)
+    _COUNTER[0] += 1
+    fn = os.path.join(os.getcwd(), "inplace_dir", f"ip{_COUNTER[0]}")
+    stats["inplace"] = 1
+    try:
+        child.save(backend="pickle", filename=fn)
+        child.load(backend="pickle", filename=fn)
+    except BaseException as e:  # noqa: BLE001
+        res["error"] = {"round": 0, "cls": type(e).__name__, "msg": str(e)[:200]}
+    res["before"] = before
+    res["inplace"] = True
+    if not res["error"]:
+        res["rounds"].append(snap(parent))
+    I = Intern(foreign_by_identity=bool(res["variant"][6]))
+    rows = []
+    rid = model_rows(I, root_before, rows)
+    rows.append(f"build {rid}")
+    obs = ["built"]
+    for lab in path[:-1]:
+        rows.append(f"descend {I('node', lab)}")
+        obs.append("descended")
+    rows.append("inplace %d %s %d" % (I("node", path[-1]), "%d%d%d%d%d%d" % res["variant"][:6], res["variant"][9]))
+    if res["error"]:
+        cls = res["error"]["cls"]
+        obs.append("error " + {"KeyError": "key", "AttributeError": "attr", "RuntimeError": "runtime",
+                               "TypeError": "type"}.get(cls, "other:" + cls))
+    else:
+        obs.extend(render(I, res["rounds"][0]))
+    res["model"] = rows
+    res["obs"] = obs
     return res
 
 
@@ -749,6 +797,8 @@ def _compare(before, after, child_alone):
             return _fail("output-values", f"{p}: {b['outs']} -> {a['outs']}")
         if (b["running"], b["failed"]) != (a["running"], a["failed"]):
             return _fail("flags", f"{p}: running/failed {b['running']},{b['failed']} -> {a['running']},{a['failed']}")
+        if b.get("parent_ok", True) and not a.get("parent_ok", True):
+            return _fail("ownership", f"{p}: listed by its parent but its own parent is {a['det']!r}/None")
     for p in B:
         b, a = B[p], A[p]
         for side, name in (("di", "data"), ("do", "data"), ("si", "signal"), ("so", "signal")):
@@ -797,7 +847,7 @@ def oracle(case, impl):
     before = impl.get("before")
     if before is None:
         return []
-    child_alone = bool(before["has_parent"])
+    child_alone = bool(before["has_parent"]) and not impl.get("inplace")
     # the rounds that did come back first (a later failure to load may only be their consequence)
     for r, after in enumerate(impl["rounds"]):
         f = _compare(before, after, child_alone)
@@ -1069,6 +1119,9 @@ def _mk_case(rng, tier, mode):
         p, c = rng.choice(paths)
         if c["kind"] not in ("snap", "forsnap"):
             case["target"] = p
+    if case["target"] and backend == "file" and state != "midrun" and rng.random() < 0.5:
+        case["inplace"] = True
+        case["rounds"] = 1
     if state == "fail":
         fs = sorted(set(_f_indices(root["spec"]))) if "spec" in root else ([root["i"]] if root["kind"] == "F" else [])
         if fs:
@@ -1254,6 +1307,13 @@ def corpus():
            "edits": [["replace", [], "n1", 15]], "mode": "corpus"}
     yield {"root": w8, "state": "run", "backend": "file", "rounds": 2, "target": [], "fail": [],
            "edits": [["replace", [], "n1", 15], ["relabel", [], "n1", "n1x"]], "rerun": ["run"], "mode": "corpus"}
+    # KF-C07-9 witness: a workflow child saves and loads in place; a macro child with a linked input likewise
+    yield {"root": w1, "state": "run", "backend": "file", "rounds": 1, "target": ["c"], "inplace": True, "fail": [],
+           "mode": "corpus"}
+    yield {"root": m1, "state": "run", "backend": "file", "rounds": 1, "target": ["m", "a"], "inplace": True,
+           "fail": [], "mode": "corpus"}
+    yield {"root": m1, "state": "fresh", "backend": "file", "rounds": 1, "target": ["m"], "inplace": True,
+           "fail": [], "mode": "corpus"}
     # a child on its own, nested, all three back ends
     for be in ("pickle", "cloudpickle", "file"):
         yield {"root": m1, "state": "run", "backend": be, "rounds": 2, "target": ["m", "c"], "fail": [], "mode": "corpus"}
